@@ -210,7 +210,7 @@ class Gen:
             x = r.random()
             if x < pv: return r.choice(self.tv)
             return r.choice([num(0), num(1), num(2), NONE, opaque(BOOL), opaque(STRING), opaque(QUBIT),
-                             boundT(0, 1, 1), boundT(1, 0, 0), num(1), opaque(BOOL)])
+                             boundT(0, 1, 1), boundT(1, 0, 0), num(1), opaque(BOOL), tup(), NONE, tup(), fun([], NONE)])
         k = r.choice(["tuple", "tuple", "fun", "list", "array", "option", "struct", "var"])
         if k == "var":
             return r.choice(self.tv)
@@ -370,6 +370,89 @@ class Gen:
         return {"kind": "lin", "t": self.ty(self.r.choice([0, 1, 2, 3]), 0.3), "shape": "lin"}
 
 
+# ------------------------------------------------------------------ boundary sizes and nullary constructors (round 3)
+def nullaries():
+    """every constructor applied to nothing / boundary sizes: None, (), 1-tuple, 0-ary type applications,
+    functions without inputs, numeric kinds, bound variables"""
+    return [NONE, tup(), tup(NONE), tup(tup()), opaque(BOOL), opaque(STRING), opaque(QUBIT), num(0), num(1), num(2),
+            fun([], NONE), fun([], tup()), struct(40), struct(43), boundT(0, 1, 1), boundT(1, 1, 1)]
+
+
+CONTEXTS = ["top", "list", "tuple", "fun-out", "fun-in", "solved-left", "solved-right", "repeated-var", "chain"]
+
+
+def in_context(ctx, x, y, A=None, B=None):
+    """the pair x ~ y placed at top level, nested, or reached through (pre-)solved variables"""
+    A = A or tvar(1); B = B or tvar(2)
+    W = lambda s, t, sg=(): {"kind": "unify", "s": s, "t": t, "sigma": [list(b) for b in sg], "shape": "nullary-" + ctx}
+    if ctx == "top": return W(x, y)
+    if ctx == "list": return W(opaque(LIST, [argT(x)]), opaque(LIST, [argT(y)]))
+    if ctx == "tuple": return W(tup(num(1), x), tup(num(1), y))
+    if ctx == "fun-out": return W(fun([(num(1), 0)], x), fun([(num(1), 0)], y))
+    if ctx == "fun-in": return W(fun([(x, 0)], NONE), fun([(y, 0)], NONE))
+    if ctx == "solved-left": return W(A, y, [(A[1], x)])
+    if ctx == "solved-right": return W(y, A, [(A[1], x)])
+    if ctx == "repeated-var": return W(tup(A, A), tup(x, y))
+    if ctx == "chain": return W(tup(A, B), tup(y, tup(A)), [(B[1], tup(x))])
+    raise ValueError(ctx)
+
+
+def boundary_cases(r, full):
+    """every nullary constructor against every other (and itself): all pairs at top level, plus every pair in
+    every context (full) or in two seeded contexts (quick)"""
+    ns = nullaries()
+    out = []
+    for i, x in enumerate(ns):
+        for j, y in enumerate(ns):
+            if j < i:
+                continue
+            a, b = (x, y) if r.random() < 0.5 else (y, x)
+            out.append(in_context("top", a, b))
+            for c in (CONTEXTS[1:] if full else r.sample(CONTEXTS[1:], 2)):
+                out.append(in_context(c, a, b))
+    return out
+
+
+def leaves(t, path=()):
+    if t[0] == "E" or not t[2]:
+        yield path
+    else:
+        for k, c in enumerate(t[2]):
+            yield from leaves(c, path + (k,))
+
+
+def replace_at(t, path, u):
+    if not path:
+        return u
+    return ["N", t[1], [replace_at(c, path[1:], u) if k == path[0] else c for k, c in enumerate(t[2])]]
+
+
+def subterm(t, path):
+    for k in path:
+        t = t[2][k]
+    return t
+
+
+def one_leaf_case(g):
+    """malformed stream: two near-equal types that differ in exactly one leaf"""
+    r = g.r
+    t = g.ty(r.choice([2, 3, 4]), 0.15)
+    ps = [p for p in leaves(t) if subterm(t, p[:-1])[1][0] == "argT" or not p] if t[0] == "N" else [()]
+    ps = ps or [()]
+    p = r.choice(ps)
+    old = subterm(t, p)
+    new = r.choice([u for u in nullaries() + [r.choice(g.tv)] if u != old])
+    s2 = replace_at(t, p, new)
+    s, t2 = (t, s2) if r.random() < 0.5 else (s2, t)
+    sg = []
+    if r.random() < 0.3:          # reach the differing leaf through a solved variable
+        v = r.choice(g.tv)
+        if v[1] not in vars_of(s) + vars_of(t2):
+            sg = [[v[1], new]]; t2 = replace_at(t2 if t2 is not t else t2, p, v) if subterm(t2, p) == new else t2
+            s = replace_at(s, p, v) if subterm(s, p) == new else s
+    return {"kind": "unify", "s": s, "t": t2, "sigma": sg, "shape": "one-leaf"}
+
+
 def case_to_coq(c, fuel=600):
     if c["kind"] == "unify":
         return f"ser_outcome (unify {fuel} {to_coq(c['s'])} {to_coq(c['t'])} {subst_to_coq(c['sigma'])})"
@@ -419,7 +502,7 @@ def annot(t):
     if k == "num": return ["nat", "int", "float"][h[1]]
     if k == "none": return "None"
     if k == "cval": return str(h[1])
-    if k == "tuple": return "tuple[" + ", ".join(annot(c) for c in a) + "]"
+    if k == "tuple": return "tuple[" + (", ".join(annot(c) for c in a) if a else "()") + "]"
     if k == "fun":
         n = len(h[1])
         return "Callable[[" + ", ".join(annot(c) for c in a[:n]) + "], " + annot(a[n]) + "]"
@@ -439,7 +522,7 @@ class CallGen:
     def closed(self, depth, copy_only=False):
         r = self.r
         if depth <= 0 or r.random() < 0.35:
-            return r.choice([num(0), num(1), num(1), num(2), opaque(BOOL), NONE])
+            return r.choice([num(0), num(1), num(1), num(2), opaque(BOOL), NONE, NONE, tup(), tup(NONE)])
         k = r.choice(["tuple", "tuple", "array", "option", "fun"] if not copy_only else ["tuple", "option", "fun"])
         if k == "tuple": return tup(*[self.closed(depth - 1, copy_only) for _ in range(r.choice([1, 2, 2, 3]))])
         if k == "array": return opaque(ARRAY, [argT(self.closed(depth - 1, True)), argC(cval(r.choice([1, 2, 3])))])
